@@ -65,8 +65,8 @@ class C17(Check):
             '(incl. a default-namespace root): to_xml -> to_ele must give an equivalent tree which xml.etree (expat) reads identically, with '
             'exactly one XML declaration, and parse_root must agree with the full parse; random tag / attribute requirement sets for '
             'validated_element; random (old, new) namespace pairs for replace_namespace - each compared with the Lean model and with a spec '
-            'written in the harness. Non-trivial = a tree with >= 3 nodes; distinct by case.')
-    TRUST = ['lxml parser / serialiser and expat (environment): the tree-level round trip is established by this correspondence, not by a theorem']
+            'written in the harness; namespace-free trees built with new_ele_ns / sub_ele_ns and nasty strings: to_xml vs the model\'s serialize byte for byte, expat vs parseDoc (theorem tree_roundtrip). Non-trivial = a tree with >= 3 nodes; distinct by case.')
+    TRUST = ['lxml parser / serialiser and expat are MODELLED for namespace-free trees (Model/XmlDoc.lean: serialize / parseDoc, compared with to_xml and expat each run) and environment otherwise (prefixes, comments, PIs, CDATA, DTD): there the round trip is a correspondence result']
     ASSUMPTIONS = ['replace_namespace: an element carrying both {old}a and {new}a attributes loses one of them (premise of replaceAttrs_exact; '
                    'such inputs are not generated)']
 
@@ -97,6 +97,9 @@ class C17(Check):
                 old, new = rng.choice(X.NSS), rng.choice(X.NSS + ['urn:new'])
                 # avoid attribute collisions after renaming (premise)
                 out.append({'kind': 'replace', 'tree': X.gen_tree(rng, comments=True), 'old': old, 'new': new})
+        from props import C07 as P7
+        for i in range(n // 2):
+            out.append({'kind': 'plain', 'tree': P7.plain_tree(rng)})
         out.append({'kind': 'ctor', 'steps': [['new_ele+nsmap-default', 'hello', 'urn:a'], ['sub_ele', 0, 'capabilities', 'urn:a', None, None],
                                               ['sub_ele', 1, 'capability', 'urn:a', 'urn:x', None]]})
         return out
@@ -105,6 +108,17 @@ class C17(Check):
         from ncclient import xml_ as nx
         from lxml import etree
         k = case['kind']
+        if k == 'plain':
+            from props import C07 as P7
+            try:
+                el = P7.plain_build(case['tree'])
+            except ValueError as e:
+                return {'unbuildable': repr(e)[:120]}
+            xml = nx.to_xml(el)
+            body = xml[xml.index('?>') + 2:] if xml.startswith('<?xml') else xml
+            xml2 = nx.to_xml(nx.to_ele(xml))
+            return {'ser': body, 'back': P7.plain_from_etree(ET.fromstring(xml.encode('utf-8'))), 'same_again': xml2 == xml,
+                    'lxml_back': P7.plain_from_etree(nx.to_ele(xml))}
         if k in ('doc', 'ctor'):
             el = X.to_lxml(case['tree']) if k == 'doc' else run_ctor(case['steps'])
             mem = X.canon(X.from_lxml(el))
@@ -143,6 +157,9 @@ class C17(Check):
     def model_lines(self, case):
         k = case['kind']
         ns = lambda x: hexs(x) if x else '-'
+        if k == 'plain':
+            from props import C07 as P7
+            return ['xd rt ' + ' '.join(P7.plain_toks(case['tree']))]
         if k == 'validate':
             qn = lambda l: hlist('%s|%s' % (ns(a), hexs(b)) for a, b in l)
             reqs = ';'.join(qn(alts) for alts in case['reqs']) or '_'
@@ -153,14 +170,43 @@ class C17(Check):
 
     def model_obs(self, case, outs):
         k = case['kind']
+        if k == 'plain':
+            from props import C07 as P7
+            toks = outs[0].split(' ')
+            if len(toks) < 3:
+                return {'bad': outs[0]}
+            return {'wf': toks[0], 'ser': unhexs(toks[1]), 'back': None if toks[2] == 'none' else P7.plain_from_toks(toks[2:])[0]}
         if k == 'validate':
             return {'ok': outs[0] == '1'}
         if k == 'replace' and outs:
             return {'tree': X.canon(X.parse_out_nodes(outs[0])[0])}
         return None
 
+    def compare(self, case, io, mo):
+        if case['kind'] != 'plain':
+            return Check.compare(self, case, io, mo)
+        if mo is None or 'unbuildable' in io:
+            return None
+        if mo.get('wf') != '1':
+            return 'generated tree is not well-formed for the model'
+        if io['ser'] != mo['ser']:
+            return 'serialisation differs: to_xml %r, model %r' % (io['ser'][:200], mo['ser'][:200])
+        if io['back'] != mo['back']:
+            return 'reading differs: expat %r, model parseDoc %r' % (str(io['back'])[:200], str(mo['back'])[:200])
+        return None
+
     def oracle(self, case, io):
         k = case['kind']
+        if k == 'plain':
+            if 'unbuildable' in io:
+                return None
+            if io['lxml_back'] != case['tree']:
+                return ('C17:roundtrip-not-identity:plain', 'to_ele(to_xml(t)) differs from the tree that was built')
+            if io['back'] != case['tree']:
+                return ('C17:independent-parser-disagrees:plain', 'xml.etree reads the serialised form differently from the tree that was built')
+            if not io['same_again']:
+                return ('C17:roundtrip-not-identity:plain', 'to_xml(to_ele(to_xml(t))) differs from to_xml(t)')
+            return None
         if k in ('doc', 'ctor'):
             if io['back'] != io['mem']:
                 return ('C17:roundtrip-not-identity:' + k, 'to_ele(to_xml(t)) differs from t (%s)' % ('constructor-built tree' if k == 'ctor' else 'parsed document'))
@@ -187,7 +233,7 @@ class C17(Check):
 
     def nontrivial(self, case, io):
         def size(n):
-            return 1 + sum(size(c) for c in n[4]) if n[0] == 'E' else 1
+            return 1 + sum(size(c) for c in n[-1]) if n[0] == 'E' else 1
         if 'tree' in case:
             return size(case['tree']) >= 3
         return len(case['steps']) >= 3
